@@ -27,9 +27,13 @@ const (
 	rDataErr        // as many as fit minus one (>=1 if possible), with a temporary error
 	rErr            // (0, temporary error)
 	nRKinds
+	// outside the io.Reader contract, and outside the enumerations above: a negative count (the library checks for
+	// it; whatever it answers, its budget must not grow)
+	rNeg1    = nRKinds
+	rNeg1000 = nRKinds + 1
 )
 
-var rKindNames = []string{"full", "short1", "(0,nil)", "data+EOF", "data+err", "(0,err)"}
+var rKindNames = []string{"full", "short1", "(0,nil)", "data+EOF", "data+err", "(0,err)", "(-1,nil)", "(-1000,nil)"}
 
 var errTemp = errors.New("temporary failure")
 
@@ -89,6 +93,9 @@ func (s *scriptReader) Read(p []byte) (int, error) {
 		err = errTemp
 	case rErr:
 		err = errTemp
+	case rNeg1, rNeg1000:
+		s.lastN, s.lastErr = map[int]int{rNeg1: -1, rNeg1000: -1000}[kind], nil
+		return s.lastN, nil
 	}
 	s.off += n
 	s.returned += uint64(n)
@@ -147,6 +154,13 @@ func runRead(c readCase) (what string, calls int) {
 			// not consulting the wrapped reader is only legal as a (0, nil) no-op
 			if n != 0 || err != nil {
 				return fmt.Sprintf("call %d: wrapped reader not consulted although %d bytes of the limit remain, yet the caller got (%d, %v)", i, limit-before, n, err), calls
+			}
+			continue
+		}
+		if src.lastN < 0 {
+			// the wrapped reader broke its contract: nothing can have been delivered
+			if n != 0 {
+				return fmt.Sprintf("call %d: wrapped reader returned the count %d, the caller got n=%d", i, src.lastN, n), calls
 			}
 			continue
 		}
@@ -212,11 +226,17 @@ type writeCase struct {
 	Limit  int   `json:"limit"`
 	Chunks []int `json:"chunk_sizes"`
 	Script []int `json:"writer_script"`
+	// Huge, when non-zero, replaces Limit: limits around MaxInt and MaxUint ("never truncate")
+	Huge uint `json:"huge_limit"`
 }
 
 func runWrite(c writeCase) (what string, calls int) {
 	sw := &scriptWriter{script: c.Script}
-	tw := ioutil.NewTruncatedWriter(sw, uint(c.Limit))
+	limit := uint(c.Limit)
+	if c.Huge != 0 {
+		limit = c.Huge
+	}
+	tw := ioutil.NewTruncatedWriter(sw, limit)
 	var all []byte
 	next := 0
 	for i, sz := range c.Chunks {
@@ -235,7 +255,7 @@ func runWrite(c writeCase) (what string, calls int) {
 		if !bytes.Equal(b, orig) {
 			return fmt.Sprintf("write %d modified the caller's slice", i), calls
 		}
-		want := all[:min(len(all), c.Limit)]
+		want := all[:min(uint(len(all)), limit)]
 		if !bytes.Equal(sw.got, want) {
 			return fmt.Sprintf("after write %d: wrapped writer received %q, want the first min(total,limit)=%d bytes %q", i, sw.got, len(want), want), calls
 		}
@@ -321,6 +341,12 @@ func runNested(c nestCase) (what string, calls int) {
 		if !src.called {
 			if n != 0 || err != nil {
 				return fmt.Sprintf("%s: source not consulted although %d bytes remain on the path, yet the caller got (%d, %v)", pre, minRem, n, err), calls
+			}
+			continue
+		}
+		if src.lastN < 0 {
+			if n != 0 {
+				return fmt.Sprintf("%s: the source returned the count %d, the caller got n=%d", pre, src.lastN, n), calls
 			}
 			continue
 		}
@@ -415,6 +441,38 @@ func TestReader(t *testing.T) {
 	r.Exhaustive(fmt.Sprintf("LimitReader: stream length 0..%d x limit 0..%d x every sequence of %d caller buffer sizes from %v x every sequence of %d wrapped-reader behaviours from %v", maxStream, maxLimit, nCalls, bufSizes, nCalls, rKindNames))
 	r.Sample(readCase{Stream: 5, Limit: 3, Bufs: []int{2, 8, 1, 3}, Script: []int{rDataErr, rFull, rZero, rFull}})
 
+	// wrapped readers that return a negative count now and then
+	{
+		kinds := []int{rFull, rShort, rNeg1, rNeg1000}
+		bufs3 := []int{1, 2, 8}
+		nk, nb3 := gen.PowInt(len(kinds), 4), gen.PowInt(len(bufs3), 4)
+		mon.Parallel(7*8*nk*nb3, func(w, lo, hi int) {
+			var evals int64
+			ki, bi := make([]int, 4), make([]int, 4)
+			for i := lo; i < hi; i++ {
+				x := i
+				c := readCase{Stream: x % 7, Bufs: make([]int, 4), Script: make([]int, 4)}
+				x /= 7
+				c.Limit = x % 8
+				x /= 8
+				gen.SeqAt(len(kinds), x%nk, ki)
+				gen.SeqAt(len(bufs3), x/nk, bi)
+				for k := range ki {
+					c.Script[k], c.Bufs[k] = kinds[ki[k]], bufs3[bi[k]]
+				}
+				what, calls := runRead(c)
+				evals += int64(calls)
+				if what != "" {
+					r.Violation(fmt.Sprintf("reader-neg:%v", c), fmt.Sprintf("LimitReader(stream of %d bytes, n=%d), buffers %v, wrapped reader script %v: %s", c.Stream, c.Limit, c.Bufs, names(c.Script, rKindNames), what), c)
+					if r.TooMany() {
+						break
+					}
+				}
+			}
+			r.Eval(evals)
+			r.Count("reader_histories_with_negative_counts", int64(hi-lo))
+		})
+	}
 	// limits at the top of the uint64 range ("unlimited"): everything passes through, nothing is refused
 	var he int64
 	for _, huge := range []uint64{math.MaxUint64, math.MaxUint64 - 1, 1 << 63, 1<<63 - 1, 1<<63 + 1, math.MaxInt64, 1 << 62, 1 << 32, 1<<32 + 1, 1<<31 - 1} {
@@ -445,7 +503,7 @@ func TestReader(t *testing.T) {
 			}
 			for j := 0; j < 3+rng.IntN(6); j++ {
 				c.Calls = append(c.Calls, nestCall{Node: rng.IntN(k), Buf: []int{1, 2, 3, 8}[rng.IntN(4)]})
-				c.Script = append(c.Script, []int{rFull, rFull, rShort, rDataEOF, rDataErr, rErr, rZero}[rng.IntN(7)])
+				c.Script = append(c.Script, []int{rFull, rFull, rShort, rDataEOF, rDataErr, rErr, rZero, rFull, rShort, rNeg1, rNeg1000}[rng.IntN(11)])
 			}
 			what, calls := runNested(c)
 			evals += int64(calls)
@@ -557,7 +615,7 @@ func TestWriter(t *testing.T) {
 				nontriv++
 			}
 			if what != "" {
-				cc := writeCase{c.Limit, append([]int{}, c.Chunks...), append([]int{}, c.Script...)}
+				cc := writeCase{Limit: c.Limit, Chunks: append([]int{}, c.Chunks...), Script: append([]int{}, c.Script...)}
 				r.Violation(fmt.Sprintf("writer:%v", cc), fmt.Sprintf("TruncatedWriter(limit %d), writes of sizes %v, wrapped writer script %v: %s", c.Limit, c.Chunks, c.Script, what), cc)
 				if r.TooMany() {
 					break
@@ -569,7 +627,22 @@ func TestWriter(t *testing.T) {
 		r.Count("writer_histories", int64(hi-lo))
 	})
 	r.Exhaustive(fmt.Sprintf("TruncatedWriter: limit 0..%d x every sequence of %d write sizes from %v x every sequence of %d wrapped-writer behaviours {ok, short, error}", maxLimit, nCalls, chunkSizes, nCalls))
-	r.Sample(writeCase{4, []int{3, 3, 2, 0, 5}, []int{wOK, wShort, wErr, wOK, wOK}})
+	r.Sample(writeCase{Limit: 4, Chunks: []int{3, 3, 2, 0, 5}, Script: []int{wOK, wShort, wErr, wOK, wOK}})
+	// limits at the top of the range: nothing is ever truncated
+	var he int64
+	for _, huge := range []uint{math.MaxUint, math.MaxUint - 1, math.MaxInt, uint(math.MaxInt) + 1, uint(math.MaxInt) + 2, 1 << 62, 1 << 32, 1<<32 + 1, 1<<31 - 1, 1 << 31} {
+		for sc := 0; sc < gen.PowInt(nWKinds, 4); sc++ {
+			c := writeCase{Huge: huge, Chunks: []int{3, 0, 5, 1}, Script: make([]int, 4)}
+			gen.SeqAt(nWKinds, sc, c.Script)
+			what, calls := runWrite(c)
+			he += int64(calls)
+			if what != "" {
+				r.Violation(fmt.Sprintf("writer-huge:%d:%v", huge, c.Script), fmt.Sprintf("TruncatedWriter(limit %d), writes of sizes %v, wrapped writer script %v: %s", huge, c.Chunks, c.Script, what), c)
+			}
+		}
+	}
+	r.Eval(he)
+	r.Count("writer_huge_limit_calls", he)
 	nr := r.Pick(50_000, 2_000_000)
 	mon.Parallel(nr, func(w, lo, hi int) {
 		rng := r.Rand(uint64(60 + w))
